@@ -354,11 +354,17 @@ class XonshParser(Parser):
 
     def import_stmt(self) -> ast.Import | ast.ImportFrom | None:
         # import_stmt: invalid_import | import_name | import_from
-        return self.seq_alts(
-            self.invalid_import,
-            self.import_name,
-            self.import_from,
-        )
+        mark = self._mark()
+        if self.call_invalid_rules and (self.invalid_import()):
+            return None
+        self._reset(mark)
+        if import_name := self.import_name():
+            return import_name
+        self._reset(mark)
+        if import_from := self.import_from():
+            return import_from
+        self._reset(mark)
+        return None
 
     def import_name(self) -> ast.Import | None:
         # import_name: 'import' dotted_as_names
@@ -674,10 +680,14 @@ class XonshParser(Parser):
 
     def params(self) -> Any | None:
         # params: invalid_parameters | parameters
-        return self.seq_alts(
-            self.invalid_parameters,
-            self.parameters,
-        )
+        mark = self._mark()
+        if self.call_invalid_rules and (self.invalid_parameters()):
+            return None
+        self._reset(mark)
+        if parameters := self.parameters():
+            return parameters
+        self._reset(mark)
+        return None
 
     def parameters(self) -> ast.arguments | None:
         # parameters: slash_no_default param_no_default* param_with_default* star_etc? | slash_with_default param_with_default* star_etc? | param_no_default+ param_with_default* star_etc? | param_with_default+ star_etc? | star_etc
@@ -2636,10 +2646,14 @@ class XonshParser(Parser):
 
     def lambda_params(self) -> Any | None:
         # lambda_params: invalid_lambda_parameters | lambda_parameters
-        return self.seq_alts(
-            self.invalid_lambda_parameters,
-            self.lambda_parameters,
-        )
+        mark = self._mark()
+        if self.call_invalid_rules and (self.invalid_lambda_parameters()):
+            return None
+        self._reset(mark)
+        if lambda_parameters := self.lambda_parameters():
+            return lambda_parameters
+        self._reset(mark)
+        return None
 
     def lambda_parameters(self) -> ast.arguments | None:
         # lambda_parameters: lambda_slash_no_default lambda_param_no_default* lambda_param_with_default* lambda_star_etc? | lambda_slash_with_default lambda_param_with_default* lambda_star_etc? | lambda_param_no_default+ lambda_param_with_default* lambda_star_etc? | lambda_param_with_default+ lambda_star_etc? | lambda_star_etc
